@@ -135,6 +135,10 @@ type boundsEngine struct {
 	contracts map[*ssa.Function]*core.Contract
 	provers   map[*ssa.Function]*core.Prover
 	requires  map[*ssa.Function][]reqItem
+	netSet    map[*ssa.Function]bool
+	cfgSet    map[*ssa.Function]bool
+	scopeFns  []*ssa.Function
+	netRoots  []*ssa.Function
 }
 
 type reqItem struct {
@@ -227,6 +231,50 @@ func derefNamed(t types.Type) (*types.Named, bool) {
 // fieldInvariants are declared here and verified at every store site by verifyFieldInvariants.
 var fieldInvariants = []core.FieldInvariant{
 	{Type: "NameScanner", Terms: map[string]int64{"off": 1}, C: 0, Doc: "NameScanner.off >= 0"},
+	{Type: "pipelineConn", Terms: map[string]int64{"nextQid": 1}, C: 0, Doc: "pipelineConn.nextQid >= 0"},
+}
+
+// verifyFieldInvariants proves each declared (single-field) invariant inductively: the zero value satisfies it and
+// every store to the field anywhere in the module stores a value that satisfies it (the storing function may assume
+// the invariant for the instances it is given).
+func verifyFieldInvariants(c *core.Ctx, be *boundsEngine) {
+	for _, inv := range fieldInvariants {
+		if len(inv.Terms) != 1 {
+			c.Unknown("field-invariant:"+inv.Doc, 0, nil, "declared field invariants relate one field to a constant", "unsupported shape")
+			continue
+		}
+		var field string
+		var coef int64
+		for f, k := range inv.Terms {
+			field, coef = f, k
+		}
+		c.Check(inv.C >= 0, "field-invariant-zero:"+inv.Doc, 0, nil, "the zero value of the struct satisfies "+inv.Doc, fmt.Sprintf("constant term %d", inv.C))
+		n := 0
+		for _, fn := range c.SrcFuncs() {
+			core.EachInstr(fn, func(b *ssa.BasicBlock, _ int, in ssa.Instruction) {
+				st, ok := in.(*ssa.Store)
+				if !ok {
+					return
+				}
+				fa, ok := st.Addr.(*ssa.FieldAddr)
+				if !ok {
+					return
+				}
+				r := core.FieldAddrRef(fa)
+				if r.Name != field || r.Struct == nil || r.Struct.Obj().Name() != inv.Type {
+					return
+				}
+				n++
+				p := be.prover(fn)
+				goal := p.Env.Of(st.Val).MulC(coef).AddC(inv.C)
+				ok2, why := p.Prove(goal, b)
+				c.Check(ok2, fmt.Sprintf("field-invariant-store:%s:%s#%d", inv.Doc, core.FuncName(fn), n), st.Pos(), fn, "the stored value keeps "+inv.Doc, why+" ["+goal.String()+" >= 0]")
+			})
+		}
+		if n == 0 {
+			c.Unknown("field-invariant-stores:"+inv.Doc, 0, nil, "the invariant's field is stored somewhere", "no store found")
+		}
+	}
 }
 
 // instFieldInv builds "Σ coef*<par>.<field> + C" using the entry-value symbols of par's fields.
@@ -766,8 +814,13 @@ func trivialSite(p *core.Prover, obs []obligation) bool {
 
 func r01a(c *core.Ctx) { runBounds(c, "network") }
 
-// runBounds checks every bounds obligation of the functions in scope.
-func runBounds(c *core.Ctx, scope string) {
+var engineMemo = map[*core.Ctx]*boundsEngine{}
+
+// engineFor builds (once per run) the contract-inference engine over the network and configuration closures.
+func engineFor(c *core.Ctx) *boundsEngine {
+	if be, ok := engineMemo[c]; ok {
+		return be
+	}
 	g := buildModGraph(c)
 	var netRoots, cfgRoots []*ssa.Function
 	for _, e := range networkEntries {
@@ -796,6 +849,15 @@ func runBounds(c *core.Ctx, scope string) {
 		}
 	}
 	be.inferContracts(scopeFns)
+	be.netSet, be.cfgSet, be.scopeFns, be.netRoots = netSet, cfgSet, scopeFns, netRoots
+	engineMemo[c] = be
+	return be
+}
+
+// runBounds checks every bounds obligation of the functions in scope.
+func runBounds(c *core.Ctx, scope string) {
+	be := engineFor(c)
+	netSet, cfgSet, scopeFns, netRoots := be.netSet, be.cfgSet, be.scopeFns, be.netRoots
 	entry := map[*ssa.Function]bool{}
 	for _, f := range netRoots {
 		entry[f] = true
@@ -860,6 +922,9 @@ func runBounds(c *core.Ctx, scope string) {
 				c.Bad("entry-precondition:"+name, fn.Pos(), fn, "an entry point reached with attacker-controlled input has no unchecked precondition", r.Why+"   ["+r.L.String()+" >= 0]")
 			}
 		}
+	}
+	if scope == "network" {
+		verifyFieldInvariants(c, be)
 	}
 	c.Notes = append(c.Notes, fmt.Sprintf("R01a(%s): %d functions in scope, %d index/slice/precondition sites, %d trivially safe, %d obligations proved by the linear prover", scope, len(scopeFns), total, trivial, proved))
 	// print inferred contracts of the decoder for the evidence
